@@ -33,6 +33,7 @@ class Gen:
         self.family = family
         self.budget = script_budget
         self.tagc = 0
+        self.cmd_ids = []
 
     def tag(self):
         self.tagc += 1
@@ -56,6 +57,8 @@ class Gen:
         else:
             k = r.choice(kinds_comb)
         cid, tid = self.ids.next(), self.ids.next()
+        if k != "and":
+            self.cmd_ids.append(cid)
         if k == "done":
             return {"k": "done", "id": cid, "tid": tid}
         if k == "event":
@@ -118,6 +121,10 @@ class Gen:
             n -= 1
             k = r.choice(["emit", "notify", "req", "req", "loop", "spawn", "abort", "joinh",
                           "join", "select", "select", "yield", "open"])
+            if self.family != "legacy" and self.cmd_ids and r.random() < 0.04:
+                # the task aborts a command itself (its own, an enclosing one, or another one)
+                code.append({"op": "abortc", "id": r.choice(self.cmd_ids[-4:])})
+                continue
             if self.family == "legacy" and k in ("abort", "joinh"):
                 continue
             if k == "emit":
